@@ -43,7 +43,7 @@ def stLF (w : World) (cfg : Cfg) : Nat → Ty → Obj → Option Obj
   | _, .bytes, x => x.toBytes?.map .bytes
   | _, .bool, x => some (.bool x.truthy)
   | _, .enum e, x => enumOf w e x
-  | _, .lit vs, x => if Obj.memPy x vs then some x else Option.none
+  | _, .lit vs, x => litStruct w vs x
   | n, .coll k t, o =>
       match leafItems o with
       | Option.none => Option.none
@@ -125,7 +125,7 @@ def stF (w : World) (cfg : Cfg) : Ty → Obj → Option Obj
   | .bytes, x => x.toBytes?.map .bytes
   | .bool, x => some (.bool x.truthy)
   | .enum e, x => enumOf w e x
-  | .lit vs, x => if Obj.memPy x vs then some x else Option.none
+  | .lit vs, x => litStruct w vs x
   | .coll k t, o =>
       match h : iterItems o with
       | Option.none => stLF w cfg (leafFuel w) (.coll k t) o       -- a `str` / `bytes` payload (else not iterable)
